@@ -32,7 +32,7 @@ Print Assumptions C01_reconstruct_exact.
    found); parity = any subset of the true recovery blocks, indexed by exponent.  Repair's
    reconstruction yields exactly the original slices or one of the two permitted errors, with and
    without the double-check. *)
-From Gopar Require Import Model.CRC Model.GoPath Model.FS Model.Par2 Proofs.Par2Facts Proofs.Par2Clean Proofs.Par2Converge.
+From Gopar Require Import Model.CRC Model.GoPath Model.FS Model.Par2 Proofs.Par2Facts Proofs.Par2Clean Proofs.Par2Converge Proofs.Par2RepairComplete.
 Open Scope N_scope.
 Theorem C01_repair_shards_exact : forall orig kd kp L dbl,
   let nd := length orig in
@@ -75,3 +75,38 @@ Example C01_example :
   let blocks := map le_bytes (gen_parity c (map le_words orig)) in
   repair_shards (erase [true; false; true] orig) (erase [false; true] blocks) true = Ok orig.
 Proof. vm_compute. reflexivity. Qed.
+
+(* WITHIN CAPACITY => REPAIRED, end to end on the decoder model, for EVERY archive state whose archive is
+   consistent with SOME originals `orig` (the slices in recovery-set order):
+     - local collision-freeness: a slice-sized window with the registered (MD5, CRC32) pair of slice k is orig[k];
+     - every loaded recovery block is the true block of its exponent for `orig`;
+     - the originals joined per file have the recorded length and hashes;
+     - the coder's limits when blocks are present (the loader enforces neither: refuted without, RCLimits);
+   if the slices counted unusable do not exceed the usable recovery blocks, Repair returns success - and then
+   every protected file is present with the recorded length and hashes - or the singular-system error (the
+   PAR2 Vandermonde matrix has singular minors; C07).  Nothing else can happen: no other error, no panic. *)
+Theorem C01_within_capacity_repairs : forall md5 ix dbl fs ds st1 (orig : list bytes) L,
+  load_all md5 ix (io_init fs []) = (Ok ds, st1) ->
+  let S := N.to_nat (d_slice (ds_dec ds)) in
+  let sh := flat_map fi_shards (ds_fis ds) in
+  S = (2 * L)%nat ->
+  length orig = length sh -> Forall (fun s => wf_bytes s /\ length s = S) orig ->
+  (forall p dat, fs_lookup fs p = Some dat -> wf_bytes dat) ->
+  NoDup (map di_id (d_rec (ds_dec ds))) ->
+  (forall k w, length w = S -> wf_bytes w ->
+      nth_error (flat_map di_pairs (d_rec (ds_dec ds))) k = Some (md5 w, crc32 w) -> w = nth k orig []) ->
+  (let c := {| c_data := length orig; c_parity := length (ds_parity ds);
+               c_pm := vandermonde_pm (length orig) (length (ds_parity ds)) |} in
+   forall e b, nth e (ds_parity ds) None = Some b -> b = le_bytes (nth e (gen_parity c (map le_words orig)) [])) ->
+  (forall i info, nth_error (d_rec (ds_dec ds)) i = Some info ->
+      recorded md5 info (firstn (N.to_nat (di_len info))
+        (concat (nth i (split_by (map (fun fi => length (fi_shards fi)) (ds_fis ds)) orig) [])))) ->
+  (ds_parity ds <> [] -> (N.of_nat (length sh) <= 32768)%N /\ (N.of_nat (length (ds_parity ds)) <= 65535)%N) ->
+  (c_unusable (shard_counts ds) <= c_pusable (shard_counts ds))%nat ->
+  NoDup (map (fun info => file_path ix (di_name info)) (d_rec (ds_dec ds))) ->
+  exists r rp st', par2_repair md5 ix dbl (io_init fs []) = ((r, rp), st') /\
+    (r = Err ESingular \/
+     (r = Ok tt /\ forall info, In info (d_rec (ds_dec ds)) ->
+        exists data, fs_lookup (io_fs st') (file_path ix (di_name info)) = Some data /\ recorded md5 info data)).
+Proof. exact repair_within_capacity_hash_restores. Qed.
+Print Assumptions C01_within_capacity_repairs.
